@@ -20,7 +20,7 @@ def run(pid, tier, replay):
         chk.cov["mutant_models_rejected"] = ["mc/MC_Serial_mutant.cfg"]
     # conformance: real threads around the wrap and the zero skip, counter preset through the cfg(zbus_verif) hook
     runs = []
-    per = 2000 if chk.quick else 200000
+    per = 2000 if chk.quick else 20000
     threads = 8 if chk.quick else 16
     starts = [0, 1, 2**32 - 1, 2**32 - 2, 2**32 - per, 2**32 - 3 * per, 2**31, 12345]
     if replay:
